@@ -70,6 +70,6 @@ Proof. exact peer_gate_closed. Qed.
 Print Assumptions C10_peer_gate_closed.
 
 Theorem C10_gate_window : forall g, gate_ok g = true ->
-  g_type_valid g = true /\ (g_duty_slot g / g_spe g <= g_now_slot g / g_spe g + g_allowed g)%nat.
+  g_type_valid g = true /\ (g_duty_slot g / g_spe g <= g_now_slot g / g_spe g + g_allowed g)%N.
 Proof. exact gate_window. Qed.
 Print Assumptions C10_gate_window.
